@@ -50,7 +50,7 @@ extern unsigned xv_parse_n;
 
 /* ghost log of decimal fields printed by the snprintf model (models/snprintf.c) */
 #define XV_DEC_LOG 4
-struct xv_dec_rec { const char *at; unsigned long long v; unsigned nd; unsigned char dig[10]; };
+struct xv_dec_rec { const char *at; unsigned long long v; unsigned nd; unsigned char dig[10]; unsigned char digx[10]; /* digits 10..19 of an 11..20-digit field */ };
 extern struct xv_dec_rec xv_dec_log[XV_DEC_LOG];
 extern unsigned xv_dec_n;
 /* the nd bytes at p are the decimal field recorded for value v */
